@@ -29,8 +29,9 @@ RULE = ('one evaluation = one seeded run: a single-client sequence of 10-120 Deq
         'collections.deque; or 2-3 concurrent appenders/poppers under the seeded scheduler checked for linearizability against a '
         'deque with the same maxlen; non-trivial = at least 5 calls / a context switch; distinct = SHA-256 of program or event log')
 RULE += ' ' + "Sequences on a Deque obtained from a FanoutCache / DjangoCache also contain the parent's own clear / expire / cull / evict / set / delete calls."
+RULE += ' ' + "The parent's calls include looking the same name up again with another maxlen; in 40 % of the runs with a parent the name holds ':' '*' '?' '|' '/' and sibling objects under colliding spellings hold marker items."
 ASSUMPTIONS = ['values compare by == as collections.deque does; NaN values are not used']
-PROBES = ('own_temporary_directory', 'lifecycle', 'maxlen_discard', 'from_fanout', 'from_django', 'parent_calls', 'lock_wait')
+PROBES = ('own_temporary_directory', 'lifecycle', 'maxlen_discard', 'from_fanout', 'from_django', 'parent_calls', 'named_with_special_characters', 'lock_wait')
 TECHNIQUE = 'deterministic simulation (seeded file/temp names, simulated processes) + differential testing against collections.deque; seeded schedules + linearizability for concurrent use'
 LEVEL_TEXT = ('seeded exploration of method sequences with lifecycle events, each call compared with collections.deque; concurrent '
               'producer/consumer interleavings are explored by the seeded scheduler and decided by a linearizability search.')
@@ -115,14 +116,16 @@ def gen_case(seed, tier):
     # the parent a Deque is obtained from may have been built with its own eviction settings: they are the parent's, a Deque never evicts
     cfg['parent_opts'] = rng.choice(({}, {}, {'eviction_policy': 'least-recently-used', 'size_limit': 2 ** 16, 'cull_limit': 10},
                                      {'eviction_policy': 'least-frequently-used', 'cull_limit': 2, 'statistics': 1, 'tag_index': 1}))
+    if cfg['origin'] in ('fanout', 'django') and rng.random() < 0.4:
+        cfg['subname'] = rng.choice(('jobs:eu', 'q*1', 'a?b', 'x|y', 'ns:a/b:c'))
     if cfg['origin'] in ('fanout', 'django') and rng.random() < 0.6:
         # the parent goes about its own business meanwhile: its keys, its housekeeping - none of it concerns what it handed out
         for _ in range(rng.randint(1, 4)):
-            prog.insert(rng.randint(0, len(prog)), {'op': 'parent', 'call': rng.choice(('clear', 'clear', 'expire', 'cull', 'evict', 'set', 'delete'))})
+            prog.insert(rng.randint(0, len(prog)), {'op': 'parent', 'call': rng.choice(('clear', 'clear', 'expire', 'cull', 'evict', 'set', 'delete', 'lookup', 'lookup'))})
     return {'seed': seed, 'cfg': cfg, 'prog': prog}
 
 
-def parent_call(parent, call):
+def parent_call(parent, call, name='dq'):
     if call == 'set':
         if type(parent).__name__ == 'DjangoCache':
             parent.set('pk', 'parent value', timeout=30, tag='t')
@@ -132,6 +135,9 @@ def parent_call(parent, call):
         parent.delete('pk')
     elif call == 'evict':
         parent.evict('t')
+    elif call == 'lookup':
+        # another part of the program looks the same named object up again (for a Deque: with another maxlen in mind)
+        parent.deque(name, maxlen=2)
     else:
         getattr(parent, call)()
 
@@ -241,15 +247,19 @@ def run_seq(case):
         maxlen = cfg['maxlen']
         path = world.path('d')
         parent = None
+        # the name under which the parent keeps the object: characters that mean something to file systems, URIs or patterns are
+        # part of the name; objects whose names differ only in such characters are different objects
+        subname = cfg.get('subname', 'dq')
+        siblings = {}
         if cfg['origin'] == 'fanout':
             parent = dc.FanoutCache(world.path('f'), shards=2, **cfg.get('parent_opts', {}))
-            dq = parent.deque('dq', maxlen=maxlen)
+            dq = parent.deque(subname, maxlen=maxlen)
             probes['from_fanout'] = 1
         elif cfg['origin'] == 'django':
             from .. import seams
             mod = seams.install_django()
             parent = mod.DjangoCache(world.path('dj'), {'SHARDS': 2, 'OPTIONS': dict(cfg.get('parent_opts', {}))})
-            dq = parent.deque('dq', maxlen=maxlen)
+            dq = parent.deque(subname, maxlen=maxlen)
             probes['from_django'] = 1
         elif cfg['origin'] == 'temp':
             # no directory given: the object makes its own, which then belongs to everything that refers to it by path
@@ -258,6 +268,12 @@ def run_seq(case):
         else:
             dq = dc.Deque(directory=path, maxlen=maxlen)
         directory = dq.directory
+        if parent is not None and subname != 'dq':
+            for alias in sorted(({subname.replace(c, '_') for c in ':*?"<>|'} | {subname.replace(':', '*')}) - {subname}):
+                sib = parent.deque(alias)
+                sib.append('sibling of ' + alias)
+                siblings[alias] = sib
+            probes['named_with_special_characters'] = 1
         dq.cache.reset('disk_min_file_size', cfg['mfs'])
         if cfg.get('tiny_limit'):
             dq.cache.reset('size_limit', 1000)
@@ -281,7 +297,7 @@ def run_seq(case):
                 probes['lifecycle'] = probes.get('lifecycle', 0) + 1
                 got = want = None
             elif name == 'parent':
-                parent_call(parent, op['call'])
+                parent_call(parent, op['call'], subname)
                 probes['parent_calls'] = probes.get('parent_calls', 0) + 1
                 got = want = None
             elif name == 'pickle':
@@ -325,6 +341,10 @@ def run_seq(case):
             if problems:
                 violations.append({'rule': 'C11/audit', 'sig': ','.join(sorted({p[0] for p in problems})), 'detail': str(problems[:3])})
         dq.cache.close()
+        for alias, sib in sorted(siblings.items()):
+            if list(sib) != ['sibling of ' + alias] and not violations:
+                violations.append({'rule': 'C11/named-objects-share-contents', 'sig': 'alias',
+                                   'detail': 'the deque named %r holds %r after work on the deque named %r' % (alias, list(sib)[:5], subname)})
         if parent is not None:
             parent.close()
     finally:
